@@ -84,6 +84,9 @@ def jobs(tier):
         {"name": "kepler-earth", "n": 6000 if q else 160000, "eop": "zero", "kind": "kepler", "bodies": ["Earth"]},
         {"name": "kepler-bodies", "n": 3000 if q else 80000, "eop": "zero", "kind": "kepler", "bodies": ["Moon", "Sun", "Mars"]},
         {"name": "j2", "n": 4500 if q else 120000, "eop": "zero", "kind": "j2", "bodies": ["Earth"]},
+        # dates only LABEL instants: epoch and request in different time scales, leap seconds in between (real IERS
+        # tables), and one propagator object serving several orbits in turn (history)
+        {"name": "labels-history", "n": 1500 if q else 40000, "eop": "real", "kind": "labels", "bodies": ["Earth"]},
     ]
 
 
@@ -113,7 +116,13 @@ def requirements(tier):
         "kepler:inverse": 2000, "kepler:periodicity": 300, "kepler:hyperbolic-uv-compared": 500,
         "j2:rates-compared": 2000, "j2:inc:polar-exact": 100, "j2:inc:critical": 100, "j2:inc:critical-retro": 100,
         "j2:polar-node-checked": 100, "j2:critical-perigee-checked": 200, "j2:composition": 1000, "j2:inverse": 1000,
+        "labels:kepler:compared": 500, "labels:j2:compared": 500, "labels:leap-second-inside-span": 300,
+        "labels:scales-differ": 500, "labels:shared-propagator-second-orbit": 500, "labels:inplace-edit": 200,
+        "labels:first-orbit-asked-again": 500,
     })
+    for s_ in LABEL_SCALES:
+        req["labels:epoch-scale:" + s_] = 100
+        req["labels:request-scale:" + s_] = 100
     return req
 
 
@@ -368,10 +377,146 @@ def argument(argtype, date0, us):
 
 
 # ---------------------------------------------------------------------------------------------
+LABEL_SCALES = ["UTC", "TAI", "TT", "GPS", "TDB"]
+_tables = None
+
+
+def tables():
+    global _tables
+    if _tables is None:
+        from ..oracles import timescales as ts
+
+        _tables = ts.Tables(env.repo_dir() / env.POLE)
+    return _tables
+
+
+def run_labels_case(ctx, job, idx, rng, st):
+    """The elapsed time that enters n*dt is the time between two INSTANTS, whatever scale labels them; and the state a
+    propagator returns for an orbit depends on that orbit only, not on the orbits the same propagator object served before."""
+    from beyond.dates import Date
+    from beyond.orbits import Orbit
+    from beyond.propagators import get_propagator
+
+    kind = ("kepler", "j2")[idx % 2]
+    K = kind
+    pname = "Kepler" if kind == "kepler" else "J2"
+    job_e = dict(job, bodies=["Earth"])
+
+    def one_state(sub):
+        c = gen_state(rng, job_e, rng.randrange(10 ** 6), st, "j2")  # bound Earth orbits for both propagators
+        form = rng.choice(FORMS)
+        vals = list(el.form_values(form, c["r"], c["v"], c["mu"]))
+        r0, v0 = tb.form_to_cartesian(form, vals, c["mu"])
+        return c, form, vals, r0, v0
+
+    # ---- the two instants, built on the uniform scale, then labelled -------------------------------------------
+    leaps = [m for m in tables().leap_mjds() if env.EOP_MJD_MIN + 40 < m < env.EOP_MJD_MAX - 40]
+    span_us = int(round(gen.loguniform(rng, 60.0, 20 * DAY) * 1e6)) * rng.choice([-1, 1])
+    if rng.random() < 0.5:
+        # a leap second strictly inside the span
+        leap = rng.choice(leaps)
+        frac = rng.uniform(0.05, 0.95)
+        t0 = Date(leap, scale="TAI") - us_to_td(int(span_us * frac))
+    else:
+        leap = None
+        t0 = Date(rng.randrange(env.EOP_MJD_MIN + 40, env.EOP_MJD_MAX - 40), scale="TAI") + us_to_td(rng.randrange(DAY_US))
+    t1 = t0 + us_to_td(span_us)
+    s0, s1 = rng.choice(LABEL_SCALES), rng.choice(LABEL_SCALES)
+    date0, date1 = t0.change_scale(s0), t1.change_scale(s1)
+    if abs((date0 - t0).total_seconds()) > 1.5e-6 or abs((date1 - t1).total_seconds()) > 1.5e-6:
+        # relabelling moved the instant: that is C03's subject (known there: offsets looked up by the day of the label,
+        # within TAI-UTC seconds of a leap-second midnight); the propagators are judged on instants that survived
+        ctx.count("labels:not-judged-relabelling-moved-the-instant")
+        raise env.HarnessSkip()
+    dt = span_us / 1e6
+    lo, hi = sorted((t0.change_scale("UTC").mjd, t1.change_scale("UTC").mjd))
+    inside = [m for m in leaps if lo < m <= hi]
+    ctx.count("labels:epoch-scale:" + s0)
+    ctx.count("labels:request-scale:" + s1)
+    if s0 != s1:
+        ctx.count("labels:scales-differ")
+    if inside:
+        ctx.count("labels:leap-second-inside-span")
+
+    frame = rng.choice(st["frames"]["Earth"])
+    cA, formA, valsA, rA, vA = one_state("A")
+    cB, formB, valsB, rB, vB = one_state("B")
+    descr = dict(kind=kind, frame=frame.name, epoch=str(date0), request=str(date1), dt_s=dt, leap_inside=bool(inside),
+                 A=dict(form=formA, values=[float(x) for x in valsA]), B=dict(form=formB, values=[float(x) for x in valsB]))
+    ctx.case(descr, nontrivial=True)
+    W = dict(descr, how="one propagator object P; A = Orbit(valuesA, epoch, formA, frame, P); A.propagate(request); "
+                        "B = Orbit(valuesB, epoch, formB, frame, P); B.propagate(request); A.propagate(request) again; "
+                        "A[:] = valuesB-like edit; A.propagate(request)")
+
+    def truth(r0, v0, mu):
+        if kind == "kepler":
+            rt, vt, _solver, _sr, _sv = tb.propagate_uv(r0, v0, dt, mu)
+            return rt, vt
+        ci = el.classical(r0, v0, mu)
+        _e, rt, vt = tb.j2_secular(ci["a"], ci["e"], ci["i"], ci["raan"], ci["argp"], ci["M"], dt, mu, st["j2"], st["re"])
+        return rt, vt
+
+    def judge(tag, keyname, c, r0, v0, res, extra=None):
+        o = read_state(res, frame)
+        rt, vt = truth(r0, v0, c["mu"])
+        tol_p, tol_v = state_tol(c["mu"], c["a"], c["e"], c["i"], norm(r0), norm(v0), norm(rt), norm(vt), dt)
+        # the two labels are rounded to the microsecond once each, and so is their difference
+        tol_p += 3e-6 * norm(vt)
+        tol_v += 3e-6 * c["mu"] / norm(rt) ** 2
+        ok = bool(np.all(np.isfinite(o)))
+        dp = norm(o[:3] - rt) if ok else float("nan")
+        dv = norm(o[3:] - vt) if ok else float("nan")
+        w = dict(W, step=tag, got=o.tolist(), truth_r=rt.tolist(), truth_v=vt.tolist(), **(extra or {}))
+        ctx.resid(f"labels:{K}:{keyname}:pos", dp, tol_p, key=f"C05/{K}-{keyname}", witness=w,
+                  msg=f"{pname} {tag}: |dr|={dp!r} m from the state {dt} s after the epoch (epoch in {s0}, request in {s1}"
+                      f"{', leap second in between' if inside else ''})")
+        ctx.resid(f"labels:{K}:{keyname}:vel", dv, tol_v, key=f"C05/{K}-{keyname}", witness=w, msg=f"{pname} {tag}: |dv|={dv!r} m/s")
+        return o
+
+    P = get_propagator(pname)()
+    try:
+        A = Orbit(valsA, date0, formA, frame, P)
+        resA = A.propagate(date1)
+        ddate = abs((resA.date - date1).total_seconds())
+        ctx.expect(ddate <= 1.5e-6, f"C05/{K}-result-date", dict(W, result_date=str(resA.date)), f"result dated {resA.date}, requested {date1}")
+        ctx.count(f"labels:{K}:compared")
+        oA = judge("A.propagate(request)", "elapsed-time-depends-on-date-labels", cA, rA, vA, resA)
+
+        # ---- the same propagator object now serves another orbit -------------------------------------------
+        B = Orbit(valsB, date0, formB, frame, P)
+        resB = B.propagate(date1)
+        ctx.count("labels:shared-propagator-second-orbit")
+        judge("B.propagate(request) with the propagator object that served A", "result-depends-on-orbits-served-before", cB, rB, vB, resB)
+
+        resA2 = A.propagate(date1)
+        oA2 = read_state(resA2, frame)
+        ctx.count("labels:first-orbit-asked-again")
+        same = bool(np.array_equal(oA, oA2))
+        ctx.expect(same, f"C05/{K}-result-depends-on-orbits-served-before", dict(W, first=oA.tolist(), again=oA2.tolist()),
+                   f"{pname}: A.propagate(request) after the propagator served B differs from the first answer by "
+                   f"{norm(oA2[:3] - oA[:3])!r} m")
+
+        # ---- the orbit is edited in place (another size and shape), then asked again -------------------------
+        if rng.random() < 0.5:
+            cC, formC, valsC, rC, vC = one_state("C")
+            A.form = formC
+            A[:] = valsC
+            resC = A.propagate(date1)
+            ctx.count("labels:inplace-edit")
+            judge("A.propagate(request) after A.form = formC; A[:] = valuesC", "result-depends-on-orbits-served-before", cC, rC, vC, resC,
+                  extra=dict(C=dict(form=formC, values=[float(x) for x in valsC])))
+    except NonTermination as exc:
+        ctx.violation(f"C05/{K}-mean-to-eccentric-anomaly-iteration-does-not-terminate", dict(W, exc=str(exc)), str(exc))
+    except Exception as exc:
+        ctx.violation(f"C05/{K}-propagate-raises", dict(W, exc=repr(exc)), f"labels/history scenario: propagate raised {exc!r}")
+
+
 def run_case(ctx, job, idx, rng, st):
     from beyond.dates import Date
 
     kind = job["kind"]
+    if kind == "labels":
+        return run_labels_case(ctx, job, idx, rng, st)
     K = kind
     c = gen_state(rng, job, idx, st, kind)
     hyper = c["e"] > 1
